@@ -64,4 +64,15 @@ TEXT = {
                 "Programs 'grow -> derive -> mutate any participant' are run against the code on every check.",
         "note": "holds after the repair of D5 (fix: commit 7931f9b); Filter*/Map*/Reduce*/typed slices are covered as pure functions in C14; no axioms.",
     },
+    "C06": {
+        "engine": "heap",
+        "design_ref": "DESIGN.md section 6, C06",
+        "technique": "Coq proof (finite-map characterisation of every object operation through lookup; Permutation for enumeration orders) + differential correspondence check on random programs",
+        "text": "Every object operation of the model is characterised as a finite-map operation over arbitrary byte-string keys: Set (last pair wins, "
+                "others untouched, odd count / non-string key panic), Unset (missing key = no-op), Merge (argument wins), Pluck (exactly the requested keys, "
+                "panics iff one is missing), Keys/Values/Dict/Count (same field set for every enumeration order), getters' panic domains as iff-statements. "
+                "The same operations are run against the implementation inside random programs with the canonical heap hash compared after every step.",
+        "note": "Go maps modelled as association lists with distinct keys (invariant proved); map iteration order is an explicit checked parameter; "
+                "KeyOf is a relation (some key holding the value); no axioms.",
+    },
 }
